@@ -22,6 +22,7 @@ import SqiProofs.DrbgRefine
 import SqiProofs.DrbgInc
 import SqiGen.Drbg
 import SqiProofs.AesCtMain
+import SqiProofs.AesEnd2
 import SqiProofs.Pad
 import SqiProofs.ChallengeScript
 import SqiGen.Challenge
@@ -254,10 +255,10 @@ theorem h2c_level_constants :
 example : SqiModel.Challenge.hashInput [1, 2] [3, 4] [5] ≠ SqiModel.Challenge.hashInput [1, 2] [3, 4] [5, 0] := by decide
 
 /-! ## (d) the deterministic generator -/
-/-- `randombytes(x, n)` writes exactly n bytes (E = the block cipher, 16-byte blocks) -/
-theorem randombytes_length (E : List UInt8 → List UInt8 → List UInt8) (hE : ∀ k v, (E k v).length = 16)
-    (st : Drbg.Model.St) (n : Nat) : (Drbg.Model.randombytes E st n).1.length = n :=
-  SqiProofs.Drbg.randombytes_length E hE st n
+/-- `randombytes(x, n)` writes exactly n bytes (E = the block cipher, 16-byte blocks under the current key) -/
+theorem randombytes_length (E : List UInt8 → List UInt8 → List UInt8) (st : Drbg.Model.St)
+    (hE : ∀ v, (E st.key v).length = 16) (n : Nat) : (Drbg.Model.randombytes E st n).1.length = n :=
+  SqiProofs.Drbg.randombytes_length E st hE n
 
 /-- same seed, same request sequence ⇒ same bytes: the whole history is a function of (seed, personalization, request
     sizes) — there is no other input (no clock, no counter outside the state) in the model that corresponds to the code -/
@@ -311,31 +312,79 @@ example : Drbg.Model.incLoop 15 12 0xff 0 [1, 2, 3, 4, 5, 6, 7, 8, 9, 10, 11, 12
 
 /-- `randombytes` refines SP 800-90A CTR_DRBG_Generate (V an integer mod 2^128, no additional input, update with
     0^384): the bytes returned are the specification's, the new (Key, V, reseed_counter) is the specification's, and the
-    invariant |V| = 16 is kept.  The bytewise increment-with-carry of the C loop is `+1 mod 2^128` (`incV_eq`). -/
-theorem randombytes_eq_spec (E : List UInt8 → List UInt8 → List UInt8) (hE : ∀ k v, (E k v).length = 16)
-    (st : Drbg.Model.St) (hv : st.v.length = 16) (n : Nat) :
+    invariant |V| = 16 is kept.  Generic in the block cipher E (16-byte blocks under the current key). -/
+theorem randombytes_eq_spec (E : List UInt8 → List UInt8 → List UInt8) (st : Drbg.Model.St)
+    (hE : ∀ v, v.length = 16 → (E st.key v).length = 16) (hv : st.v.length = 16) (n : Nat) :
     (Drbg.Model.randombytes E st n).1 = (Drbg.Spec.generate E (Drbg.abs st) n).1 ∧
     Drbg.abs (Drbg.Model.randombytes E st n).2 = (Drbg.Spec.generate E (Drbg.abs st) n).2 ∧
     (Drbg.Model.randombytes E st n).2.v.length = 16 :=
-  SqiProofs.Drbg.randombytes_refines E hE st hv n
+  SqiProofs.Drbg.randombytes_refines E st hE hv n
+
+/-! ### AES_256_ECB end to end, and the DRBG with the real cipher -/
+
+/-- **`AES_256_ECB` of aes_c.c is FIPS 197 AES-256**: key schedule (`br_aes_ct64_keysched` with `sub_word`,
+    `br_aes_ct64_skey_expand`), `aes_ecb` with one block (the other three lanes of the 4-block batch hold uninitialised stack
+    words — `garbage`, arbitrary), `br_range_dec32le` / `br_range_enc32le`, `aes_ecb4x`; for every 32-byte key and 16-byte block.
+    The straight-line parts are translated (SqiGen.Aes), the control code around them is text-checked by the translator and
+    modelled in SqiModel.AesCt (tie H: ops aes.enc256 / aesct.*). -/
+theorem aes256_ecb_eq_spec (garbage : List UInt64) (hg : garbage.length = 12) (key block : List UInt8)
+    (hk : key.length = 32) (hb : block.length = 16) :
+    AesCt.aes256Ecb garbage key block = Aes.aes256 key block :=
+  SqiProofs.AesCt.aes256Ecb_eq_spec garbage hg key block hk hb
+
+/-- the key schedule part on its own: the expanded key satisfies the hypothesis of `aes_ecb4x_eq_spec` -/
+theorem aes_key_schedule_eq_spec (key : List UInt8) (hk : key.length = 32) (r : Nat) (hr : r ≤ 14) (blk : Nat) (hb : blk < 4) :
+    AesCt.unslice (((AesCt.skeyExpand (AesCt.keysched key)).drop (8 * r)).take 8) blk
+      = Aes.roundKey (Aes.keyExpansion key 14) r :=
+  SqiProofs.AesCt.skExp_keys key hk r hr blk hb
+
+/-- the schedule words of the C loop (uint32 little-endian) are FIPS 197 KeyExpansion -/
+theorem aes_key_expansion_eq_spec (key : List UInt8) (hk : key.length = 32) :
+    (AesCt.expandWords key).map AesCt.enc32le = Aes.keyExpansion key 14 :=
+  SqiProofs.AesCt.expandWords_eq key hk
+
+/-- **the DRBG with AES-256 plugged in (no cipher hypothesis left)**: from `randombytes_init(entropy, NULL)` with a 48-byte
+    seed, every request history of the model is the SP 800-90A CTR_DRBG(AES-256) history of the specification; Key stays
+    32 bytes and V 16 bytes, so every cipher call is one that `aes256_ecb_eq_spec` covers. -/
+theorem randombytes_aes_history_eq_spec (entropy : List UInt8) (he : entropy.length = 48) (reqs : List Nat) :
+    (Drbg.Model.run Aes.aes256 (Drbg.Model.init Aes.aes256 entropy none) reqs).1
+      = (SqiProofs.Drbg.specRun Aes.aes256 (Drbg.Spec.instantiate Aes.aes256 entropy []) reqs).1 := by
+  have hE : ∀ k v, k.length = 32 → v.length = 16 → (Aes.aes256 k v).length = 16 :=
+    fun k v hk _ => SqiProofs.AesCt.aes256_length k hk v
+  have hE0 : ∀ v, v.length = 16 → (Aes.aes256 (List.replicate 32 0) v).length = 16 := fun v hv => hE _ v (by simp) hv
+  have hl := SqiProofs.Drbg.init_lengths Aes.aes256 hE0 entropy (by omega)
+  have h := SqiProofs.Drbg.run_refines Aes.aes256 hE _ hl.1 hl.2 reqs
+  rw [SqiProofs.Drbg.init_refines Aes.aes256 hE0 entropy] at h
+  exact h.1
+
+/-- one request with the real cipher -/
+theorem randombytes_aes_eq_spec (st : Drbg.Model.St) (hk : st.key.length = 32) (hv : st.v.length = 16) (n : Nat) :
+    (Drbg.Model.randombytes Aes.aes256 st n).1 = (Drbg.Spec.generate Aes.aes256 (Drbg.abs st) n).1 ∧
+    Drbg.abs (Drbg.Model.randombytes Aes.aes256 st n).2 = (Drbg.Spec.generate Aes.aes256 (Drbg.abs st) n).2 ∧
+    (Drbg.Model.randombytes Aes.aes256 st n).1.length = n :=
+  let h := SqiProofs.Drbg.randombytes_refines Aes.aes256 st (fun v _ => SqiProofs.AesCt.aes256_length _ hk v) hv n
+  ⟨h.1, h.2.1, SqiProofs.Drbg.randombytes_length Aes.aes256 st (fun v => SqiProofs.AesCt.aes256_length _ hk v) n⟩
 
 /-- `randombytes_init(entropy, NULL, ·)` is CTR_DRBG_Instantiate without df and with empty personalization string -/
-theorem randombytes_init_eq_spec (E : List UInt8 → List UInt8 → List UInt8) (hE : ∀ k v, (E k v).length = 16)
+theorem randombytes_init_eq_spec (E : List UInt8 → List UInt8 → List UInt8)
+    (hE : ∀ v, v.length = 16 → (E (List.replicate 32 0) v).length = 16)
     (entropy : List UInt8) : Drbg.abs (Drbg.Model.init E entropy none) = Drbg.Spec.instantiate E entropy [] :=
   SqiProofs.Drbg.init_refines E hE entropy
 
 /-- … and with a (48-byte) personalization string: seed_material = entropy ⊕ personalization -/
-theorem randombytes_init_pers_eq_spec (E : List UInt8 → List UInt8 → List UInt8) (hE : ∀ k v, (E k v).length = 16)
+theorem randombytes_init_pers_eq_spec (E : List UInt8 → List UInt8 → List UInt8)
+    (hE : ∀ v, v.length = 16 → (E (List.replicate 32 0) v).length = 16)
     (entropy pers : List UInt8) (hp : pers.length = 48) :
     Drbg.abs (Drbg.Model.init E entropy (some pers)) = Drbg.Spec.instantiate E entropy pers :=
   SqiProofs.Drbg.init_refines_pers E hE entropy pers hp
 
-/-- every request history of the model is the specification's history (induction over the request list) -/
-theorem randombytes_history_eq_spec (E : List UInt8 → List UInt8 → List UInt8) (hE : ∀ k v, (E k v).length = 16)
-    (st : Drbg.Model.St) (hv : st.v.length = 16) (reqs : List Nat) :
+/-- every request history of the model is the specification's history (induction over the request list; Key stays 32 bytes) -/
+theorem randombytes_history_eq_spec (E : List UInt8 → List UInt8 → List UInt8)
+    (hE : ∀ k v, k.length = 32 → v.length = 16 → (E k v).length = 16)
+    (st : Drbg.Model.St) (hk : st.key.length = 32) (hv : st.v.length = 16) (reqs : List Nat) :
     (Drbg.Model.run E st reqs).1 = (SqiProofs.Drbg.specRun E (Drbg.abs st) reqs).1 ∧
     Drbg.abs (Drbg.Model.run E st reqs).2 = (SqiProofs.Drbg.specRun E (Drbg.abs st) reqs).2 :=
-  SqiProofs.Drbg.run_refines E hE st hv reqs
+  SqiProofs.Drbg.run_refines E hE st hk hv reqs
 
 /-- non-vacuity of `hv`: the state right after `randombytes_init` has |V| = 16 whenever the cipher returns 16-byte blocks
     (here: E constant) -/
